@@ -95,13 +95,13 @@ Proof. exact exec_queue_state. Qed.
     nothing and changes nothing *)
 Theorem c11_evalsha_logged_as_eval :
   forall t s c dbi ca nm h nk rest sha src,
-  str_arg h = Some sha -> alookup sha ca = Some src ->
+  str_arg h = Some sha -> alookup (lower sha) ca = Some src ->
   s_aof (snd (h_evalsha t s c dbi ca (FBulk nm :: h :: nk :: rest))) =
   aof_push (s_aof s) dbi (FBulk (bs "EVAL") :: FBulk src :: nk :: rest).
 Proof. exact evalsha_record. Qed.
 Theorem c11_evalsha_unknown_not_logged :
   forall t s c dbi ca nm h nk rest sha,
-  str_arg h = Some sha -> alookup sha ca = None ->
+  str_arg h = Some sha -> alookup (lower sha) ca = None ->
   snd (h_evalsha t s c dbi ca (FBulk nm :: h :: nk :: rest)) = s.
 Proof. exact evalsha_unknown. Qed.
 
@@ -115,13 +115,22 @@ Theorem c11_served_pop_is_one_command :
 Proof. exact served_pop_state. Qed.
 Theorem c11_served_pop_record : forall now dbs dbi lf k, dcmd_recs now dbs dbi (pop_cmd lf k) None = [pop_cmd lf k].
 Proof. exact pop_recs. Qed.
-(** the wake-up of a waiting client by a push (Model/Blocking.v wake_client, delivery) is that event *)
+(** the wake-up of a waiting client by a push (Model/Blocking.v wake_client, delivery; the key has
+    not expired) is that event; whatever a wake-up does - deliver from the key, deliver from
+    another key of the client, put the element back, register the client again - it appends at
+    most one record, the pop of the key that served the client *)
 Theorem c11_wakeup_is_served_pop :
-  forall s b u v d' cst,
+  forall now s b u v d' cst,
+  was_expired now (get_db s (u_db u)) (u_key u) = false ->
   on_key (get_db s (u_db u)) (u_key u) (e_pop (u_left u)) = (FBulk v, d') ->
   zlookup (u_conn u) (b_blk b) = Some cst ->
-  fst (wake_client s b u) = served_pop s (u_db u) (u_left u) (u_key u).
+  fst (wake_client now s b u) = served_pop s (u_db u) (u_left u) (u_key u).
 Proof. exact wake_client_served. Qed.
+Theorem c11_wakeup_logs_at_most_one_pop :
+  forall now s b u,
+  s_aof (fst (wake_client now s b u)) = s_aof s \/
+  exists lf k, s_aof (fst (wake_client now s b u)) = aof_push (s_aof s) (u_db u) (pop_cmd lf k).
+Proof. exact wake_client_log. Qed.
 (** BLPOP / BRPOP that finds an element at once is that event for the key that served it; one
     that finds none (and blocks, or answers nil inside EXEC) changes neither databases nor log *)
 Theorem c11_blocking_pop_immediate :
